@@ -13,7 +13,9 @@ from rules.c18 import resolve_rulebook_function
 PATCHING = "annet.annlib.patching"
 COMMON = "annet.annlib.rulebook.common"
 ENTRIES = [("annet.api", "_diff_and_patch"), (PATCHING, "make_diff"), (PATCHING, "make_pre"), (PATCHING, "make_patch"), (PATCHING, "Orderer.order_config"),
-           (PATCHING, "apply_acl"), ("annet.api", "patch_from_pre")]
+           (PATCHING, "apply_acl"), ("annet.api", "patch_from_pre"),
+           # judged at their own boundary too: their `matches` argument is a fresh list *of* compiled ACL rules (the access-path analysis does not follow values through fresh containers)
+           (PATCHING, "_select_match"), (PATCHING, "match_row_to_acl")]
 
 
 def is_deepcopy(e):
@@ -67,6 +69,7 @@ def run(c):
     r2(c, reg)
     r3(c)
     r4(c, reg)
+    r5(c)
 
 
 def r1a(c, reg):
@@ -210,16 +213,26 @@ def r1b(c, reg):
             seen_roots = set()
             for s_ in sites:
                 rk = (s_.root[0], s_.root[1], s_.root[2])
-                if rk in seen_roots:
+                wtxt = norm(s_.root[3].targets[0])[:60] if isinstance(s_.root[3], ast.Assign) else type(s_.root[3]).__name__
+                if (rk, wtxt) in seen_roots:
                     continue
-                seen_roots.add(rk)
+                seen_roots.add((rk, wtxt))
                 n += 1
                 rmod, rq, rp = rk
                 at = f"{repo.module(rmod).rel}:{getattr(s_.root[3], 'lineno', 0)}"
                 construct = f"{q}({p}) <- {rmod.split('.')[-1]}:{rq}({rp})"
                 rdef = repo.module(rmod).defs.get(rq)
                 if (rmod, rq, rp) in allowed and rq == "_find_acl_matches":
-                    c.holds("C20.R1b", at, construct, f"allowed: {allowed[(rmod, rq, rp)]}")
+                    # only the one scratch field the property exempts: <rule>['attrs']['match'] = ...
+                    wn = s_.root[3]
+                    tgt = wn.targets[0] if isinstance(wn, ast.Assign) else None
+                    only_match = isinstance(tgt, ast.Subscript) and isinstance(tgt.slice, ast.Constant) and tgt.slice.value == "match" and norm(tgt.value).replace('"', "'").endswith("['attrs']")
+                    if only_match:
+                        c.holds("C20.R1b", at, construct, f"allowed: {allowed[(rmod, rq, rp)]}")
+                    else:
+                        c.violated("C20.R1b", at, construct, f"`{norm(wn)[:70]}` writes another field of the shared compiled ACL rule (only the scratch field ['attrs']['match'] is exempt): "
+                                   "what is stored there survives into every later use of the same ACL object, so results depend on which rows were seen before",
+                                   key_text=f"acl-scratch:{norm(tgt)[:40] if tgt is not None else norm(wn)[:40]}")
                 elif p == "pre" and (rmod.startswith("annet.rulebook.") or (rdef is not None and id(rdef) in reg_ids) or any(v in logic_names for v in s_.via)):
                     c.holds("C20.R1b", at, construct, "registered logic writes into the bucket dict of the pre it was handed (ownership: C16.R3)")
                 else:
@@ -415,3 +428,40 @@ def r4(c, reg):
                        "changed for every later use in the process", key_text=f"mutates:{p}")
         else:
             c.holds("C20.R4", repo.loc(lm, fn), f"lib.{q}", "no write reaches anything the arguments contain")
+
+
+def r5(c):
+    from sa.cachealias import CachedMutables
+    repo = c.repo
+    c.rule("C20.R5", "what a memoised compiler/parser of the rule languages returns (rbparser.*, rulebook.*: compile_*_text and any further lru_cache'd function there) is shared "
+                     "by every later caller: no mutation site receives such a value, and it is not handed (directly or inside a list/dict literal) to a function that may mutate "
+                     "the corresponding parameter — except the one exempt scratch write rule['attrs']['match'] of ACL matching")
+    mods = sorted(n for n in repo.modules if n.startswith(("annet.annlib.rbparser", "annet.rulebook", "annet.annlib.rulebook")))
+    cm = CachedMutables(repo, mods)
+    c.analysed["memoised_sources"] = sorted(v[1] for v in cm.sources.values())
+    c.floor("C20.R5", "memoised sources returning mutable structures", len(cm.sources), 4)
+    eff = Effects(repo, mode="contents", max_depth=5)
+    n = 0
+    for m, q, node, src in cm.sinks():
+        n += 1
+        c.violated("C20.R5", repo.loc(m, node), f"{m.name.split('.', 1)[-1]}:{q}", f"`{norm(node)[:70]}` mutates a value that may be the memoised result of {src}", key_text=f"mutates:{src}")
+
+    def exempt(site):
+        wn = site.root[3]
+        tgt = wn.targets[0] if isinstance(wn, ast.Assign) else None
+        return isinstance(tgt, ast.Subscript) and isinstance(tgt.slice, ast.Constant) and tgt.slice.value == "match" and norm(tgt.value).replace('"', "'").endswith("['attrs']")
+    seen = set()
+    for m, q, call, src, callee, sites in cm.arg_sinks(eff):
+        real = [s_ for s_ in sites if not exempt(s_)]
+        key = (m.name, q, callee, src)
+        if key in seen:
+            continue
+        seen.add(key)
+        n += 1
+        if real:
+            s0 = real[0]
+            c.violated("C20.R5", repo.loc(m, call), f"{m.name.split('.', 1)[-1]}:{q}->{callee}", f"`{norm(call)[:60]}` hands the memoised result of {src} to {callee}, which may mutate it "
+                       f"({s0.how[:80]} at {s0.at()}): every later caller of {src} with the same arguments gets the altered structure", key_text=f"arg-mutated:{src}:{callee}")
+        else:
+            c.holds("C20.R5", repo.loc(m, call), f"{m.name.split('.', 1)[-1]}:{q}->{callee}", f"{src} result only receives the exempt scratch write")
+    c.analysed["memoised_result_flows"] = n
